@@ -485,8 +485,26 @@ class SimQueue:
         return self.q.popleft()
 
 
+class _HashSeq:
+    """Futures and tasks hash by creation order, not by address: the iteration order of a set of
+    futures (asyncio.wait) is then a function of the run, and a replay iterates it the same way."""
+    n = 0
+
+    @classmethod
+    def next(cls):
+        cls.n += 1
+        return cls.n
+
+
 class SimFuture(concurrent.futures.Future):
     _s = None
+
+    def __hash__(self):
+        try:
+            return self._det_seq
+        except AttributeError:
+            self._det_seq = h = _HashSeq.next()
+            return h
 
     def done(self):
         r = super().done()
@@ -620,17 +638,44 @@ class _Sel:
         pass
 
 
+class DetFuture(asyncio.Future):
+    def __hash__(self):
+        try:
+            return self._det_seq
+        except AttributeError:
+            self._det_seq = h = _HashSeq.next()
+            return h
+
+
+class DetTask(asyncio.Task):
+    def __hash__(self):
+        try:
+            return self._det_seq
+        except AttributeError:
+            self._det_seq = h = _HashSeq.next()
+            return h
+
+
+def _det_task_factory(loop, coro, **kw):
+    return DetTask(coro, loop=loop, **kw)
+
+
 class SimLoop(base_events.BaseEventLoop):
     """Stock CPython event loop driven by the simulator: virtual clock, no selector."""
 
     def __init__(self, s):
         super().__init__()
         self.s = s
+        _HashSeq.n = 0
+        self.set_task_factory(_det_task_factory)
         self._selector = _Sel(s, self)
         self._clock_resolution = 1e-9
 
     def time(self):
         return self.s.now
+
+    def create_future(self):
+        return DetFuture(loop=self)
 
     def _process_events(self, ev):
         pass
